@@ -601,3 +601,26 @@ def isolation(s1, s2, v1, v2, content):
         return True
     return call(IG + "IgnoreDirectiveParser.should_ignore_violation", s1, v1, content) == \
         call(IG + "IgnoreDirectiveParser.should_ignore_violation", s2, v2, content)
+
+
+# ------------------------------------------------------------------ a new parser starts with a decision cache of its own
+# (the primary contract of __init__ is C08's, assumed for the file I/O; this view verifies the initialisation part: the
+# pattern loader is applied by its own contract, everything else is executed)
+@contract(IG + "IgnoreDirectiveParser.__init__~c04", props=["C04"], types=dict(self=ParserT, project_root=Opt(PathT)),
+          modifies=["self.project_root", "self.repo_patterns", "self._ignore_cache"])
+class ParserInitView:
+    def ensures_starts_with_an_empty_decision_cache(self):
+        # set as an INSTANCE attribute by __init__: whatever an earlier parser decided is not visible to this one
+        return self._ignore_cache == {}
+
+    def ensures_root_as_given(self, project_root):
+        return implies(project_root is not None, self.project_root == project_root)
+
+
+@lemma(props=["C04"], types=dict(old_parser=ParserT, new_parser=ParserT, root=PathT, p=PathT), name="a-new-parser-decides-afresh")
+def new_parser_decides_afresh(old_parser, new_parser, root, p):
+    """Two parser generations: whatever verdict an earlier parser memoised for a path, a parser constructed afterwards
+    answers from ITS OWN patterns (its memo starts empty, so ign_now is ign_fresh)."""
+    call(IG + "IgnoreDirectiveParser.__init__~c04", new_parser, root)
+    return ign_now(new_parser._ignore_cache, new_parser.project_root, new_parser.repo_patterns, p) == \
+        ign_fresh(new_parser.project_root, new_parser.repo_patterns, p)
